@@ -63,12 +63,7 @@ Theorem sampler_state_inv :
       st_count st' = count_true (st_active st') /\
       starts_in_range (cW c) (cData c) (st_starts st') = true /\
       st_last st' <= st_step st')%N t.
-Proof.
-  intros c st chs t Hwf Hseed Hinv Hrun.
-  pose proof (run_inv c chs Hwf Hseed st Hinv) as H. rewrite Hrun in H. destruct H as [_ Ht].
-  eapply Forall_impl; [|apply (trace_ok_states c t st Ht)].
-  intros x [[H1 H2 H3 H4 H5] Hl _]. cbv zeta. auto.
-Qed.
+Proof. exact run_state_inv. Qed.
 
 (* no arithmetic or index panic, whatever the choices *)
 Theorem sampler_no_underflow :
@@ -114,13 +109,7 @@ Theorem sampler_no_panic :
     exists c st0,
       new_ K W data wraps m initial inertia patience starts0 seeds0 = Ok (c, st0) /\
       (choices_ok c st0 chs -> exists t, run c st0 chs = Ok t).
-Proof.
-  intros K W data wraps m initial inertia patience starts0 seeds0 chs Hd Hs Hw Hr Hseeds.
-  destruct (new_ok K W data wraps m initial inertia patience starts0 seeds0 Hd Hw Hr Hseeds)
-    as [c [st0 [E [Hwf [Hinv [Hc _]]]]]].
-  exists c, st0. split; [exact E|]. apply run_progress; auto.
-  unfold strict_len. rewrite Hc. exact Hs.
-Qed.
+Proof. exact new_run_progress. Qed.
 
 (* background() (Background::from_counts(..).unwrap()) panics exactly on an empty active set *)
 Theorem background_panics_iff_empty_active_set :
@@ -152,13 +141,7 @@ Theorem model_passes_C16 :
     new_ K W data wraps m initial inertia patience starts0 seeds0 = Ok (c, st0) ->
     run c st0 chs = Ok t ->
     check_C16 freq K W data (report_of freq st0) (obs_of_trace freq t) = true.
-Proof.
-  intros freq K W data wraps m initial inertia patience starts0 seeds0 chs c st0 t Hd Hw Hr Hs En Er.
-  destruct (new_run_holds freq K W data wraps m initial inertia patience starts0 seeds0 chs Hd Hw Hr Hs)
-    as [c' [st0' [En' H]]].
-  rewrite En in En'. inversion En'; subst c' st0'. rewrite Er in H.
-  apply check_C16_iff. tauto.
-Qed.
+Proof. exact new_run_check. Qed.
 
 (* ------------------------------------------------------------------ reading of the recomputation *)
 
@@ -224,20 +207,7 @@ Theorem inertia_only_seeds_active :
     run c st0 chs = Ok t ->
     Forall (fun x => (st_step (fst x) <= inertia)%N ->
                      forall i, nth i (st_active (fst x)) false = true -> In i seeds0) t.
-Proof.
-  intros K W data wraps initial inertia patience starts0 seeds0 chs c st0 t Hd Hw Hr Hs En Er.
-  destruct (new_ok K W data wraps Zoops initial inertia patience starts0 seeds0 Hd Hw Hr (fun _ => Hs))
-    as [c' [st0' [En' [Hwf [Hinv [Hc [_ [_ [_ Hact]]]]]]]]].
-  assert (Heq : c' = c /\ st0' = st0) by (rewrite En in En'; inversion En'; auto).
-  destruct Heq as [-> ->]. clear En'.
-  assert (HJ : inertia_inv c st0).
-  { intros _ _ i Hi. rewrite Hact in Hi. cbn [init_active] in Hi.
-    apply existsb_exists in Hi. destruct Hi as [x [Hx Hxe]]. apply Nat.eqb_eq in Hxe. subst x.
-    rewrite Hc. exact Hx. }
-  pose proof (run_inertia_inv c chs Hwf st0 t Hinv HJ Er) as H.
-  eapply Forall_impl; [|exact H]. intros x Hx Hle. unfold inertia_inv in Hx.
-  rewrite Hc in Hx. cbn [cMode cInertia cSeed] in Hx. apply Hx; auto.
-Qed.
+Proof. exact new_run_inertia. Qed.
 
 (* the same through the public constructors: any sequence of SamplerBuilder setters followed
    by sample(), and Sampler::new (oops, no seeds) *)
@@ -257,19 +227,7 @@ Theorem sampler_inv_builder :
                 Holds_C16 freq K (b_width b) data (report_of freq st0) (obs_of_trace freq t)
       | r => allowed r
       end.
-Proof.
-  intros freq K data wraps ops b starts0 seeds0 chs _ Hd Hw Hr Hs. unfold builder_sample.
-  destruct (new_ok K (b_width b) data wraps (b_mode b) (b_seeds b)
-              (match b_inertia b with Some i => i | None => 0%N end)
-              (match b_patience b with Some p => p | None => N.of_nat (length data) end)
-              starts0 seeds0 Hd Hw Hr Hs) as [c [st0 [E [_ [_ [Hc _]]]]]].
-  destruct (new_run_holds freq K (b_width b) data wraps (b_mode b) (b_seeds b)
-              (match b_inertia b with Some i => i | None => 0%N end)
-              (match b_patience b with Some p => p | None => N.of_nat (length data) end)
-              starts0 seeds0 chs Hd Hw Hr Hs) as [c' [st0' [E' H]]].
-  rewrite E in E'. inversion E'; subst c' st0'.
-  exists c, st0. split; [exact E|]. rewrite Hc at 1 2. cbn [cInertia cPatience]. auto.
-Qed.
+Proof. exact builder_run_holds. Qed.
 
 (* seeds(n) fixes the inertia to 50 n only when no inertia was set before (get_or_insert) *)
 Theorem builder_seeds_default_inertia :
